@@ -336,7 +336,7 @@ Proof.
     + destruct Hal_dec as [Ht|Hn]; [left; now apply Hallow|right; now apply H6].
     + destruct allow; [|reflexivity]. cbn. destruct has; [reflexivity|]. exfalso.
       assert (Ht : al = AliasTrue) by now apply Hallow. specialize (H5 Ht).
-      assert (true = true \/ (true = true /\ ~ NoDup (map snd (de_values e)))) as Hx by (right; tauto).
+      assert (false = true \/ (true = true /\ ~ NoDup (map snd (de_values e)))) as Hx by (right; tauto).
       apply Hh in Hx. discriminate.
     + assumption.
     + now apply H8.
